@@ -249,6 +249,22 @@ func checkC15(c *Ctx, r *Report) {
 			compareSpec(c, r, []layerSpec{sp}, "field", nil)
 		}
 	}
+	// (7) the factors the formula is fed with come from the specified bits of the record,
+	// sign-extended as specified (10-bit M and B, 4-bit exponents) — shared table with C07
+	r.Rule("record-factors-layout", "Full Sensor Record: M = sext10(byte 20[7:6]:byte 19), B = sext10(byte 22[7:6]:byte 21), R exponent = sext4(byte 24[7:4]), B exponent = sext4(byte 24[3:0]), analog format = byte 15[7:6], linearisation = byte 18[6:0] (IPMI v2.0 §43.1)", 6)
+	for _, sp := range responseSpecs {
+		if sp.Type == "FullSensorRecord" {
+			sub := sp
+			sub.Want = map[string][]string{}
+			for _, k := range []string{"AnalogDataFormat", "Linearisation", "ConversionFactors.M", "ConversionFactors.B", "ConversionFactors.RExp", "ConversionFactors.BExp"} {
+				if w, ok := sp.Want[k]; ok {
+					sub.Want[k] = w
+				}
+			}
+			compareSpec(c, r, []layerSpec{sub}, "field", nil)
+		}
+	}
+	r.Rule("reading-flags-layout", "Get Sensor Reading response: reading = byte 0, event messages [7], scanning enabled [6], reading unavailable [5] of byte 1 (IPMI v2.0 §35.14), assigned on every success path", 5)
 	if fn := c.Method("pkg/ipmi", "GetSensorReadingRsp", "DecodeFromBytes"); fn != nil {
 		lf := newLenflow(c, 4)
 		lf.runEntry(fn, nil)
